@@ -9,7 +9,7 @@ def sh(cmd, **kw):
 
 def validate(pid, letter, rnd=1):
   src = '/tmp/seed%s_%s/out/%s' % ('' if rnd == 1 else str(rnd), pid, letter)
-  out_letter = letter if rnd == 1 else {'A': 'C', 'B': 'D'}[letter]
+  out_letter = {1: {'A': 'A', 'B': 'B'}, 2: {'A': 'C', 'B': 'D'}, 3: {'A': 'E', 'B': 'F'}, 4: {'A': 'G', 'B': 'H'}}[rnd][letter]
   if not os.path.exists(os.path.join(src, 'patch.diff')):
     return (pid, letter, 'missing', '')
   d = tempfile.mkdtemp(prefix='vfseed_')
